@@ -17,7 +17,7 @@
    db     := - | entry;entry...      entry := <gid>:<name>,<name>...   (name ~ = empty string)
    pw     := - | <name>=<uid>|! ,...  (first match wins, ! = getpwnam_r fails with EIO)
    sched  := item.item...            item := e<k> | f<k>  (pass i: after k entries ERANGE / EIO)
-   output := one token per R,S,Q,A,X op (see emit calls), space separated                       */
+   output := one token per R,S,Q,A op, two per X op (see emit calls), space separated                       */
 #define _GNU_SOURCE 1
 #if HAVE_CONFIG_H
 #  include "config.h"
@@ -323,6 +323,7 @@ static void run_case (char *line) {
                 } else if (r != bits[idx]) { ok = 0; why = "partial"; }
             }
             emit ("x%d%s", ok, why);
+            if (strcmp (why, "no-timer")) emit_r (); else emit ("r--");
             free (k.log); free (oldb);
             break; }
         default: emit ("?%s", tok);
